@@ -1,7 +1,8 @@
 (* TeiClientFacts2.v: the client's go line and what the engine (Tei.parse_go) reads from it.
      ms_round d            the duration the engine holds for a client duration d: whole milliseconds, nothing below zero
      client_go_line        the engine's five durations are ms_round of the client's deadline / TimeControl values
-     go_words_none         the client refuses ("Timeout too short") exactly when a clock value is non-zero and below 1 ms *)
+     go_words_none         the client refuses ("Timeout too short") exactly when the deadline is less than 1 ms ahead or a clock value
+                           is non-zero and below 1 ms *)
 From Coq Require Import NArith ZArith List Bool Lia Ascii String ZifyN ZifyBool ZifyNat.
 Require Import Board Move GameOver PtnMove Playtak Tps TeiBudget Tei TeiSpec TeiFacts TeiClient TeiClientFacts.
 Require Import TpsFacts2.
@@ -115,11 +116,19 @@ Lemma tc_words_step key d r acc :
   tc_words ((key, d) :: r) acc = if d =? 0 then tc_words r acc else if d <? 1000000 then None else tc_words r (acc ++ [key; format_time d]).
 Proof. reflexivity. Qed.
 
-Theorem go_words_some dl tc ws : go_words dl tc = Some ws ->
+Lemma go_words_unfold dl tc :
+  go_words dl tc =
+  match dl with
+  | Some d => if d <? 1000000 then None else go_words_pinned dl tc
+  | None => go_words_pinned dl tc
+  end.
+Proof. unfold go_words, go_words_pinned. destruct dl as [d|]; [destruct (d <? 1000000)|]; reflexivity. Qed.
+
+Lemma go_words_pinned_some dl tc ws : go_words_pinned dl tc = Some ws ->
   ws = s_go :: dl_words dl ++ tc_kv tc /\
   (forall t, tc = Some t -> sayable (tc_white t) /\ sayable (tc_black t) /\ sayable (tc_winc t) /\ sayable (tc_binc t)).
 Proof.
-  unfold go_words. cbv zeta. intros H.
+  unfold go_words_pinned. cbv zeta. intros H.
   assert (G : (match dl with Some d => [s_go] ++ [s_movetime; format_time d] | None => [s_go] end) = s_go :: dl_words dl)
     by (destruct dl; reflexivity).
   rewrite G in H. destruct tc as [t|].
@@ -133,18 +142,43 @@ Proof.
   - injection H as <-. split; [unfold tc_kv; now rewrite app_nil_r|]. discriminate.
 Qed.
 
+Lemma go_words_pinned_none dl tc : go_words_pinned dl tc = None ->
+  exists t, tc = Some t /\ ~ (sayable (tc_white t) /\ sayable (tc_black t) /\ sayable (tc_winc t) /\ sayable (tc_binc t)).
+Proof.
+  unfold go_words_pinned. cbv zeta. destruct tc as [t|]; [|discriminate]. intros H. exists t. split; [reflexivity|].
+  rewrite !tc_words_step in H. cbn [tc_words] in H. unfold sayable. intros (S1 & S2 & S3 & S4).
+  destruct (Z.eqb_spec (tc_white t) 0); [|destruct (Z.ltb_spec (tc_white t) 1000000); [lia|]];
+  (destruct (Z.eqb_spec (tc_black t) 0); [|destruct (Z.ltb_spec (tc_black t) 1000000); [lia|]]);
+  (destruct (Z.eqb_spec (tc_winc t) 0); [|destruct (Z.ltb_spec (tc_winc t) 1000000); [lia|]]);
+  (destruct (Z.eqb_spec (tc_binc t) 0); [|destruct (Z.ltb_spec (tc_binc t) 1000000); [lia|]]); discriminate H.
+Qed.
+
+(* what the repaired client writes when it does not refuse: the deadline is at least 1 ms ahead, every clock is 0 or at least 1 ms *)
+Theorem go_words_some dl tc ws : go_words dl tc = Some ws ->
+  ws = s_go :: dl_words dl ++ tc_kv tc /\
+  (forall d, dl = Some d -> 1000000 <= d) /\
+  (forall t, tc = Some t -> sayable (tc_white t) /\ sayable (tc_black t) /\ sayable (tc_winc t) /\ sayable (tc_binc t)).
+Proof.
+  rewrite go_words_unfold. intros H.
+  assert (Hd : forall d, dl = Some d -> 1000000 <= d).
+  { intros d ->. destruct (Z.ltb_spec d 1000000); [discriminate H|assumption]. }
+  assert (Hp : go_words_pinned dl tc = Some ws).
+  { destruct dl as [d|]; [|exact H]. destruct (d <? 1000000); [discriminate H|exact H]. }
+  destruct (go_words_pinned_some _ _ _ Hp) as [E S]. auto.
+Qed.
+
 Theorem go_words_none dl tc : go_words dl tc = None <->
+  (exists d, dl = Some d /\ d < 1000000) \/
   exists t, tc = Some t /\ ~ (sayable (tc_white t) /\ sayable (tc_black t) /\ sayable (tc_winc t) /\ sayable (tc_binc t)).
 Proof.
   split.
-  - unfold go_words. cbv zeta. destruct tc as [t|]; [|discriminate]. intros H. exists t. split; [reflexivity|].
-    rewrite !tc_words_step in H. cbn [tc_words] in H. unfold sayable. intros (S1 & S2 & S3 & S4).
-    destruct (Z.eqb_spec (tc_white t) 0); [|destruct (Z.ltb_spec (tc_white t) 1000000); [lia|]];
-    (destruct (Z.eqb_spec (tc_black t) 0); [|destruct (Z.ltb_spec (tc_black t) 1000000); [lia|]]);
-    (destruct (Z.eqb_spec (tc_winc t) 0); [|destruct (Z.ltb_spec (tc_winc t) 1000000); [lia|]]);
-    (destruct (Z.eqb_spec (tc_binc t) 0); [|destruct (Z.ltb_spec (tc_binc t) 1000000); [lia|]]); discriminate H.
-  - intros (t & -> & Hn). destruct (go_words dl (Some t)) as [ws|] eqn:E; [|reflexivity].
-    exfalso. apply Hn. destruct (go_words_some _ _ _ E) as [_ Hs]. exact (Hs t eq_refl).
+  - rewrite go_words_unfold. intros H. destruct dl as [d|].
+    + destruct (Z.ltb_spec d 1000000); [left; exists d; auto|right; now apply (go_words_pinned_none (Some d))].
+    + right. now apply (go_words_pinned_none None).
+  - intros H. destruct (go_words dl tc) as [ws|] eqn:E; [|reflexivity]. exfalso.
+    destruct (go_words_some _ _ _ E) as (_ & Hd & Hs). destruct H as [(d & -> & Hlt)|(t & -> & Hn)].
+    + specialize (Hd d eq_refl). lia.
+    + apply Hn. exact (Hs t eq_refl).
 Qed.
 
 Lemma kv_words key d : word key -> Forall word (kv key d).
@@ -162,8 +196,8 @@ Lemma ms_round_0 : ms_round 0 = 0. Proof. reflexivity. Qed.
 
 (* client_go_line: the engine splits the client's go line into the client's words, and the five durations it parses from them are
    the client's values rounded as formatTime prints them - the time left until the deadline and the four TimeControl values, each
-   rounded DOWN to whole milliseconds (a value the client left out because it is 0 is 0 for the engine as well; a deadline that has
-   passed or lies less than 1 ms ahead is sent as `movetime 0`, which the engine reads as "no per-move time"). *)
+   rounded DOWN to whole milliseconds (a value the client left out because it is 0 is 0 for the engine as well; a deadline less
+   than 1 ms ahead is refused since the repair, so a movetime on the wire is at least 1). *)
 Theorem client_go_line dl tc ws :
   (forall d, dl = Some d -> int64 d) -> (forall t, tc = Some t -> tc_int64 t) -> go_words dl tc = Some ws ->
   exists args, ws = s_go :: args /\ fields (go_line ws) = ws /\
@@ -174,7 +208,7 @@ Theorem client_go_line dl tc ws :
               winc := match tc with Some t => ms_round (tc_winc t) | None => 0 end;
               binc := match tc with Some t => ms_round (tc_binc t) | None => 0 end |}.
 Proof.
-  intros Hd Ht H. destruct (go_words_some _ _ _ H) as [-> _]. eexists. split; [reflexivity|]. split.
+  intros Hd Ht H. destruct (go_words_some _ _ _ H) as (-> & _ & _). eexists. split; [reflexivity|]. split.
   - unfold go_line. apply fields_join. apply go_words_word.
   - assert (M : forall r a, parse_go (dl_words dl ++ r) a = parse_go r (set_movetime a (match dl with Some d => ms_round d | None => movetime a end))).
     { intros r a. destruct dl as [d|]; [cbn [dl_words app]; now rewrite parse_go_movetime by (apply Hd; reflexivity)|].
